@@ -1,8 +1,18 @@
 package main
 
 import (
+	"os"
+
 	"verif/checks"
 	"verif/mc"
 )
 
-func main() { mc.Main(checks.All) }
+func main() {
+	if len(os.Args) > 1 {
+		if f, ok := checks.ExtraCommands[os.Args[1]]; ok {
+			f(os.Args[2:])
+			return
+		}
+	}
+	mc.Main(checks.All)
+}
